@@ -62,6 +62,10 @@ Lemma r_errlog_isolated : forall sched s t ok e, R sched s ->
   out (thr s t) = Some (if ok then PValid else PFault (Some e)).
 Proof. by_reach errlog_isolated. Qed.
 
+Lemma r_validator_error_isolated : forall sched s t e, R sched s ->
+  reqs t = RValidateX e -> tpc (thr s t) = Done -> out (thr s t) = Some (PFault (Some e)).
+Proof. by_reach validator_error_isolated. Qed.
+
 Lemma r_mutual_exclusion : forall sched s t u, R sched s ->
   (in_wcrit (tpc (thr s t)) = true -> in_wcrit (tpc (thr s u)) = true -> t = u) /\
   (in_vcrit (tpc (thr s t)) = true -> in_vcrit (tpc (thr s u)) = true -> t = u) /\
